@@ -713,6 +713,7 @@ func (c *Conn) RunWTx(tx WTx, cur *oracle.Image) (res WTxResult) {
 		_ = c.wal.Fsync()
 	}
 	// Build intended image.
+	var unwritten []uint32
 	for p, b := range pending {
 		for uint32(len(next.Pages)) < p {
 			next.Pages = append(next.Pages, nil)
@@ -730,9 +731,11 @@ func (c *Conn) RunWTx(tx WTx, cur *oracle.Image) (res WTxResult) {
 			if uint32(i+1) == lock {
 				next.Pages[i] = make([]byte, c.PageSize)
 			} else if tx.FreeLeaves && uint32(i+1) > size {
-				// a free-list leaf allocated and freed inside the transaction: never written, not even as a frame;
-				// readers find it neither in the log nor in the (shorter) database file and see zeros
+				// a free-list leaf allocated and freed inside the transaction: never written, not even as a frame.
+				// Readers find it in an earlier frame of this log generation (a page spilled and then truncated away by
+				// an earlier transaction is still there), else in the database file, else - beyond its end - as zeros.
 				next.Pages[i] = make([]byte, c.PageSize)
+				unwritten = append(unwritten, uint32(i+1))
 			} else {
 				c.wfail(&res, "program", fmt.Errorf("illegal program: page %d of %d has no content", i+1, newSize))
 				return
@@ -748,6 +751,24 @@ func (c *Conn) RunWTx(tx WTx, cur *oracle.Image) (res WTxResult) {
 	w.PageSize = c.PageSize
 	if err := c.writeWalIndexHdr(&w); c.wfail(&res, "shm header", err) {
 		return
+	}
+	if len(unwritten) > 0 {
+		// what a reader of the new snapshot finds for the unwritten pages
+		ws.idx = w
+		savedLock := ws.readLock
+		ws.readLock = 1 // look into the log as a reader with a read mark does (this connection just wrote frames)
+		defer func() { ws.readLock = savedLock }()
+		info, err := c.scanWAL()
+		if c.wfail(&res, "scan wal", err) {
+			return
+		}
+		for _, p := range unwritten {
+			b, err := c.readPageWAL(p, &info)
+			if c.wfail(&res, "read unwritten page", err) {
+				return
+			}
+			next.Pages[p-1] = append([]byte(nil), b...)
+		}
 	}
 	ws.idx = w
 	res.Committed = true
